@@ -27,7 +27,8 @@ def run(ctx):
     invs = sb.invariants("C11_")
     ctx.cov["rule"] = ("schedules = every (pod kind, reconcile r, client call k, Fail|Crash) of the c11 driver of Binder.tla, single "
                        "faults and pairs (exported by TLC; quick: all singles + seeded sample of pairs), each followed by a fault-free "
-                       "Sync, a check point and fault-free retries; + seeded random schedules; non-trivial = at least one fault; "
+                       "Sync, a check point and fault-free retries; + for every single-fault schedule that leaves the pod bound without a Succeeded request: "
+                       "the recovery reconcile once per call index k with its k-th real call failing; + seeded random schedules; non-trivial = at least one fault; "
                        "distinct by (configuration, fault points)")
     ctx.assumptions += [
         "crash model: the call is performed, then every in-flight actor is abandoned (none of its later calls reaches the store) and a fresh reconciler/binder/service/plugins instance is used; only the store survives; after a crash the binder's start-up Sync runs",
@@ -57,11 +58,16 @@ def run(ctx):
     t1 = sb.run(ctx, binary, scheds, "c11")
     t2 = sb.run(ctx, binary, [], "random", extra=["-random", str(nrandom), "-seed", str(ctx.seed),
                                                   "-kmax", json.dumps({k: v["K"] for k, v in dry.items()})])
-    for t in (t1, t2):
+    probes = sb.bound_probes(t1)
+    if not probes:
+        raise vlib.Infra("no schedule left the pod bound without a Succeeded request: the already-bound probes are vacuous")
+    ctx.stage("bound-probes", schedules=len(probes))
+    t3 = sb.run(ctx, binary, probes, "bound")
+    for t in (t1, t3, t2):
         sb.validate(ctx, t, "C11_")
     if kdrift:
         raise vlib.Infra(kdrift)
-    ctx.cov["edges_replayed_on_impl"] = len(scheds)
+    ctx.cov["edges_replayed_on_impl"] = len(scheds) + len(probes)
     ctx.cov["exhaustive"] = not ctx.quick
     ctx.cov["model_predictions"] = sorted(set(pred1 + pred2))
 
